@@ -399,8 +399,51 @@ fn conflict_case(t: &mut Tape, rec: &mut Rec) -> CaseResult {
     Ok(())
 }
 
+
+/// many messages to RSA recipients: the wrapped session key is an MPI whose length depends on the
+/// value (about one in 256 is an octet shorter than the modulus); each must decrypt with the key,
+/// through the ring and through Message::decrypt
+fn rsa_many_case(t: &mut Tape, rec: &mut Rec) -> CaseResult {
+    let idx = t.u64();
+    let v6 = idx & 1 == 1;
+    let kind = if v6 { Kind::RsaV6 } else { Kind::RsaV4 };
+    let mut cfg = MsgConfig::plain();
+    let mut seed = [0u8; 32];
+    seed[..8].copy_from_slice(&idx.to_le_bytes());
+    seed[8] = 0xC1;
+    cfg.seed = seed;
+    cfg.enc = if v6 { Enc::V2(SymmetricKeyAlgorithm::AES128, pgp::crypto::aead::AeadAlgorithm::Ocb, 0) } else { Enc::V1(SymmetricKeyAlgorithm::AES128) };
+    cfg.recipients = vec![(kind, idx & 2 == 2)];
+    let payload = expand(idx, 40);
+    let bytes = cfg.build(&payload).map_err(|e| f("C18:builder-error", e.to_string()))?;
+    // length of the RSA ciphertext MPI in the PKESK
+    let short = wire::split_packets(&bytes).ok().and_then(|ps| ps.iter().find(|p| p.tag == 1).and_then(|p| crate::refimpl::pkesk::parse_pkesk(&p.body))).and_then(|b| b.fields.get(..2).map(|l| (u16::from_be_bytes([l[0], l[1]]) as usize).div_ceil(8) < 256));
+    rec.label(format!("rsa-many:{kind:?}"));
+    if short == Some(true) {
+        rec.label("rsa-many:ciphertext-mpi-shorter-than-the-modulus");
+    }
+    rec.nontrivial(idx);
+    rec.describe(|| format!("message #{idx} to {kind:?} (anonymous: {}), RSA ciphertext shorter than the modulus: {short:?}", idx & 2 == 2));
+    let z = zoo::get(kind);
+    let o = open(&bytes, Presented { keys: vec![&z.secret], key_pws: vec![Password::empty()], msg_pws: vec![], session_keys: vec![] }, idx & 4 == 4, Consumer::ReadToEnd);
+    if o.error.is_some() || o.released != payload {
+        return fail("C18:recipient-cannot-decrypt", format!("RSA recipient {kind:?}, message #{idx} (short ciphertext MPI: {short:?}): {:?}", o.error));
+    }
+    match Message::from_bytes(&bytes[..]).map_err(|e| e.to_string()).and_then(|m| m.decrypt(&Password::empty(), &z.secret).map_err(|e| e.to_string())) {
+        Ok(mut m) => {
+            let mut out = vec![];
+            use std::io::Read;
+            if m.read_to_end(&mut out).is_err() || out != payload {
+                return fail("C18:recipient-cannot-decrypt", format!("Message::decrypt, RSA recipient {kind:?}, message #{idx}: read"));
+            }
+        }
+        Err(e) => return fail("C18:recipient-cannot-decrypt", format!("Message::decrypt, RSA recipient {kind:?}, message #{idx} (short ciphertext MPI: {short:?}): {e}")),
+    }
+    Ok(())
+}
+
 pub fn run(ctx: &Ctx) {
-    ctx.set_rule("messages built by rPGP to 1..4 public-key recipients (all encryption algorithms, PKESK v3 with SEIPDv1 / v6 with SEIPDv2, addressed or anonymous) and 0..3 passwords (S2K kinds); presented secrets: each intended key (locked or unlocked, wrong key passwords first) alone or at every position among 0..3 unrelated keys (same-algorithm decoys preferred), each password alone or (SKESK v6) among unrelated passwords; negatives: only non-recipient keys, only wrong passwords (incl. one bit off), wrong session key, session key of the wrong kind/cipher; cross-check (abort_early=false): spliced messages whose PKESK and SKESK, two PKESKs, or two SKESK v6 wrap different session keys, and explicit session keys [right, wrong] / [wrong, right] / [right, right, wrong]; oracle: intended secret => exactly the plaintext; wrong material => error and zero bytes released; conflict => error from the cross-check; non-trivial = every case; distinct = (recipient-set shape, presented shape, abort flag)");
+    ctx.set_rule("messages built by rPGP to 1..4 public-key recipients (all encryption algorithms, PKESK v3 with SEIPDv1 / v6 with SEIPDv2, addressed or anonymous) and 0..3 passwords (S2K kinds); presented secrets: each intended key (locked or unlocked, wrong key passwords first) alone or at every position among 0..3 unrelated keys (same-algorithm decoys preferred), each password alone or (SKESK v6) among unrelated passwords; negatives: only non-recipient keys, only wrong passwords (incl. one bit off), wrong session key, session key of the wrong kind/cipher; cross-check (abort_early=false): spliced messages whose PKESK and SKESK, two PKESKs, or two SKESK v6 wrap different session keys, and explicit session keys [right, wrong] / [wrong, right] / [right, right, wrong]; 1500 (thorough 60000) messages to RSA recipients so that ciphertext MPIs shorter than the modulus occur (counted per run), opened through the ring and through Message::decrypt; oracle: intended secret => exactly the plaintext; wrong material => error and zero bytes released; conflict => error from the cross-check; non-trivial = every case; distinct = (recipient-set shape, presented shape, abort flag)");
     ctx.assume("unrelated passwords alongside the right one are only required to be harmless for SKESK v6 (the statement says integrity-protected password packets)");
     zoo::warm(zoo::ALL);
     let cheap = [Kind::EdLegacyV4, Kind::Ed25519V4, Kind::Ed25519V6, Kind::P256V4];
@@ -412,4 +455,6 @@ pub fn run(ctx: &Ctx) {
     ctx.group("non-recipients", Source::Random { n, tape_len: 200 }, |t, rec| negative_case(t, rec, &cheap));
     let n = ctx.tier.pick(600u64, 10_000);
     ctx.group("conflicting-secrets", Source::Random { n, tape_len: 120 }, conflict_case);
+    let n = ctx.tier.pick(1500u64, 60_000);
+    ctx.group("rsa-recipients-many-messages", Source::Indexed { count: n }, rsa_many_case);
 }
